@@ -639,16 +639,21 @@ func checkDistinctModelNames(models GenDefinitions, lang *LanguageOpts) error {
 	types := make(map[string]string, len(models))
 	files := make(map[string]string, len(models))
 	for _, m := range models {
+		// m.Name is the go name (x-go-name when there is one): two definitions are told apart by their name in the spec
+		name := m.OriginalName
+		if name == "" {
+			name = m.Name
+		}
 		goName := pascalize(m.Name)
-		if prev, ok := types[goName]; ok && prev != m.Name {
-			return fmt.Errorf("definitions %q and %q are both rendered as go type %s: please rename one of them", prev, m.Name, goName)
+		if prev, ok := types[goName]; ok && prev != name {
+			return fmt.Errorf("definitions %q and %q are both rendered as go type %s: please rename one of them", prev, name, goName)
 		}
-		types[goName] = m.Name
+		types[goName] = name
 		file := strings.ToLower(lang.MangleFileName(goName))
-		if prev, ok := files[file]; ok && prev != m.Name {
-			return fmt.Errorf("definitions %q and %q are both rendered in source file %s.go: please rename one of them", prev, m.Name, file)
+		if prev, ok := files[file]; ok && prev != name {
+			return fmt.Errorf("definitions %q and %q are both rendered in source file %s.go: please rename one of them", prev, name, file)
 		}
-		files[file] = m.Name
+		files[file] = name
 	}
 	return nil
 }
